@@ -28,3 +28,13 @@ Definition agree11t (c : list N * option (Z * Z)) : bool :=
   | Some (a, p), Some (b, q) => (a =? b) && (p =? q)
   | _, _ => false
   end.
+
+(* textual layer, IPv6 *)
+Require Import CCP.Model.IPText6.
+Definition model11t6 (c : list N * option (Z * Z)) : option (Z * Z) := v6_parse (fst c).
+Definition agree11t6 (c : list N * option (Z * Z)) : bool :=
+  match snd c, model11t6 c with
+  | None, None => true
+  | Some (a, p), Some (b, q) => (a =? b) && (p =? q)
+  | _, _ => false
+  end.
